@@ -48,7 +48,8 @@ UTypes ==
         infields |-> <<AD("a", S), ADD("n", I, IntV(7)), AD("l", ListOf(S))>> ],
     Mutation |->
       [ kind |-> "OBJECT", ifaces |-> <<>>, members |-> <<>>,
-        fields |-> [ set |-> FD(S, <<AD("s", S)>>), a |-> FD(Named("A"), <<>>) ] ],
+        fields |-> [ set |-> FD(S, <<AD("s", S)>>), a |-> FD(Named("A"), <<>>),
+                     leak |-> FD(S, <<>>) ] ],      \* (its resolver hands out a *ggql.Subscription: no String, outside a subscription operation)
     Titled |->
       [ kind |-> "INTERFACE", ifaces |-> <<>>, members |-> <<>>, fields |-> [ title |-> FD(S, <<>>) ] ],
     Named |->
@@ -117,7 +118,7 @@ UData ==
              need  |-> V("echo", 0), obj |-> V("echo", 0), ids |-> V("echo", 0),
              odd |-> NodeV("c1"), odds |-> ListV(<<NodeV("a1"), NodeV("c1"), NodeV("b1")>>),
              pv |-> NodeV("p1"), pp |-> NodeV("p1"), ps |-> ListV(<<NodeV("p1"), NodeV("b1"), NodeV("p1")>>) ],
-    m  |-> [ set |-> V("echo", 0), a |-> NodeV("a2") ],
+    m  |-> [ set |-> V("echo", 0), a |-> NodeV("a2"), leak |-> V("subval", 0) ],
     a1 |-> [ name |-> StrV("a1"), n |-> IntV(1), peer |-> NodeV("b1"), self |-> NodeV("a1"),
              kids |-> ListV(<<NodeV("a2")>>), boom |-> ErrV("boom fails"), many |-> V("errs", 2), half |-> V("errval", "part"), nest |-> V("errsn", 2), say |-> V("echo", 0),
              wrong |-> StrV("n/a"), flags |-> ListV(<<BoolV(TRUE), StrV("maybe"), NullV, BoolV(FALSE)>>), tag |-> V("echo", 0) ],
